@@ -62,6 +62,17 @@ fn eq_json<T: Queryable>(lhs: &T, rhs: &T) -> bool {
 
     if let (Some(lhs_num), Some(rhs_num)) = (lhs_f64, rhs_f64) {
         lhs_num == rhs_num
+    } else if let (Some(lhs_arr), Some(rhs_arr)) = (lhs.as_array(), rhs.as_array()) {
+        // numbers nested in arrays and objects compare by value as well
+        lhs_arr.len() == rhs_arr.len() && lhs_arr.iter().zip(rhs_arr).all(|(a, b)| eq_json(a, b))
+    } else if let (Some(lhs_obj), Some(rhs_obj)) = (lhs.as_object(), rhs.as_object()) {
+        lhs_obj.len() == rhs_obj.len()
+            && lhs_obj.iter().all(|(key, a)| {
+                rhs_obj
+                    .iter()
+                    .find(|(k, _)| k == key)
+                    .map_or(false, |(_, b)| eq_json(*a, *b))
+            })
     } else {
         lhs == rhs
     }
